@@ -1083,13 +1083,22 @@ def u_resolve_dotted_path(ip: Interp, th: DottedTheory):
 
     th.hooks["getattr"] = getattr_
 
+    fi = ip.repo.get("helpers.resolve_dotted_path")
+    # the two locals of the invariant are found by their role, not by their name: `<acc> = <parts>.pop(0)`
+    acc_name = parts_name = None
+    for n in _ast.walk(fi.node):
+        if (isinstance(n, _ast.Assign) and len(n.targets) == 1 and isinstance(n.targets[0], _ast.Name) and isinstance(n.value, _ast.Call)
+                and isinstance(n.value.func, _ast.Attribute) and n.value.func.attr == "pop" and isinstance(n.value.func.value, _ast.Name)):
+            acc_name, parts_name = n.targets[0].id, n.value.func.value.id
+    if acc_name is None:
+        raise Unsupported("resolve_dotted_path: the statement `<name> = <components>.pop(0)` was not found (anchor of the loop invariant)")
+
     def inv(c):
-        mn = c.loc("module_name")
+        mn, parts = c.loc(acc_name), c.loc(parts_name)
         return [("the-name-to-import-next-is-built-from-the-dotted-prefix-consumed-so-far", mn.t == PREFIX(path.t, c.i) if isinstance(mn, StrV) else z3.BoolVal(False)),
-                ("components-are-consumed-in-order", z3.BoolVal(isinstance(c.loc("names"), PartsV)) if not isinstance(c.loc("names"), PartsV) else c.loc("names").off == 1)]
+                ("components-are-consumed-in-order", z3.BoolVal(False) if not isinstance(parts, PartsV) else parts.off == 1)]
 
     ip.loopspecs[("helpers.resolve_dotted_path", 1)] = LoopSpec(inv, P, name="each-component")
-    fi = ip.repo.get("helpers.resolve_dotted_path")
     for s, v in ip.exec_function(st, fi, None, {"dotted_path": path}):
         if isinstance(v, Exit):
             ip.require(s, f"raises:only-ImportError/AttributeError-of-the-failing-lookup:{v.val.cls}", z3.BoolVal(v.val.cls in ("ImportError", "AttributeError") and getattr(v.val, "origin", "") in ("import", "getattr")), P)
